@@ -413,7 +413,47 @@ def chk_both(c, note):
     return None
 
 
+def enum_corpus(ctx):
+    from vlib import corpus
+    idx = 0
+    for df in (20, 21):
+        n = len(corpus.commb(df))
+        for start in range(0, n, 100):
+            idx += 1
+            if ctx.mine(idx):
+                yield {"df": df, "start": start}
+
+
+def chk_corpus(case, note):
+    """real DF20/21 replies: the reference verdicts (valid -> accepted, broken -> rejected) and relation 2 on a real-world distribution"""
+    from vlib import corpus
+    seen = set()
+    for m, _icao in corpus.commb(case["df"])[case["start"]:case["start"] + 100]:
+        v = int(m, 16)
+        mb = (v >> 24) & ((1 << 56) - 1)
+        ac = (v >> 80) & 0x1FFF
+        for mr in (False, True):
+            p = chk_any({"msg": m, "mrar": mr}, type(note)())
+            if p:
+                return p
+        for reg in LABELS + MRAR:
+            verdict = R.verdict(reg, mb, case["df"], ac)
+            r = call(isfn(reg), m)
+            if verdict == "valid" and r != ("ok", True):
+                return "is%s(%s) -> %r for a real reply whose payload is a valid in-envelope BDS %s,%s content" % (reg, m, r, reg[0], reg[1])
+            if verdict == "broken" and r != ("ok", False):
+                return "is%s(%s) -> %r for a real reply whose payload breaks a status/reserved rule of BDS %s,%s" % (reg, m, r, reg[0], reg[1])
+            if verdict == "valid":
+                seen.add(reg)
+    note.evals = 100 * 11
+    for reg in sorted(seen):
+        note.cls("real-valid-BDS" + reg)
+    note.nt(bool(seen))
+    return None
+
+
 LEGS = [
+    Leg("corpus", chk_corpus, enum=enum_corpus, exhaustive=True, doc="10 000 real DF20/21 replies: reference verdicts vs the predicates, infer consistency"),
     Leg("totality_consistency", chk_any, strategy=s_any, quick=16000, thorough=450000, doc="relations 1 and 2"),
     Leg("completeness", chk_valid, strategy=s_valid, quick=16000, thorough=450000, doc="relation 3: valid in-envelope register contents are accepted and listed"),
     Leg("soundness", chk_broken, strategy=s_broken, quick=12000, thorough=300000, doc="relation 4: one broken status/reserved/format rule -> rejected"),
